@@ -428,8 +428,13 @@ def gen_defines(rng, g):
                 defs.append((n, rng.random() < 0.5))
             else:
                 defs.append((n, rng.choice([0, 1, 2, 5, -1, 3])))
-        else:
+        elif r < 0.93 or g.nlabel == 0:
             defs.append(("NOSUCH%d" % rng.randrange(3), 1))
+        else:
+            # the name of a label (declared in a live or a dead arm, or at top level): a define is used by a constant only (F46)
+            n = "L%d" % rng.randrange(1, g.nlabel + 1)
+            if n not in [d[0] for d in defs]:
+                defs.append((n, rng.choice([0, 5, -1])))
     return defs
 
 
@@ -464,6 +469,13 @@ def run(chk):
             ft = flatten_text(sel[1], defs)
             cases.append((nodes, defs, ft, e, "flat"))
             ops.append(fw.asm_op([("main.asm", ft)]))
+            live = [x[1] for x in sel[1] if x[0] == "label"]
+            if e[0] == "ok" and live and rng.random() < 0.25:
+                # the same (valid) program with one more define, naming a label of the selected world: only a constant
+                # uses a define (F46, repaired)
+                d2 = defs + [(rng.choice(live), rng.choice([0, 5, -1]))]
+                cases.append((nodes, d2, text, ("err", "unused-define"), "cond"))
+                ops.append(fw.asm_op([("main.asm", text)], defs=defs_field(d2)))
     impl = fw.run_oracle_resilient(ops, "c16")
     model = fw.run_model(ops, "c16", timeout=3000)
     for (nodes, defs, text, e, kind), a, m in zip(cases, impl, model):
@@ -482,6 +494,54 @@ def run(chk):
         if not ok:
             chk.violate("the %s program does not assemble to the selected world" % ("conditional" if kind == "cond" else "hand-flattened"),
                         {"program": text, "defines": defs, "kind": kind}, str(e)[:400], il[:400])
+    # ---- conditions behind chains of constants declared in any order (also inside selected arms), with defines on chain members
+    ch = []
+    for _ in range(2500 if thorough else 300):
+        n = rng.randrange(2, 8)
+        base = rng.randrange(0, 20)
+        decls = ["k%d = k%d + 1" % (i, i + 1) for i in range(n - 1)] + ["k%d = %d" % (n - 1, base)]
+        how = rng.choice(["fwd", "rev", "rev", "shuffle"])
+        if how == "fwd":
+            decls.reverse()
+        elif how == "shuffle":
+            rng.shuffle(decls)
+        defs = []
+        vals = {}
+        if rng.random() < 0.4:
+            j = rng.randrange(n)
+            dv = rng.randrange(0, 30)
+            defs.append(("k%d" % j, dv))
+            vals[j] = dv
+        for i in range(n - 1, -1, -1):
+            if i not in vals:
+                vals[i] = base if i == n - 1 else vals[i + 1] + 1
+        top = vals[0]
+        thr = top + rng.choice([-1, 0, 1])
+        taken = top >= thr
+        inner_thr = vals[n // 2] + rng.choice([0, 1])
+        inner_taken = vals[n // 2] < inner_thr
+        body = ["#if k0 >= %d" % thr, "{", "    #d8 0xa1", "    #if k%d < %d" % (n // 2, inner_thr), "    {", "        #d8 0xb1", "    }",
+                "    #else", "    {", "        #d8 0xb2", "    }", "}", "#else", "{", "    #d8 0xa2", "}", "#d8 k0"]
+        hx = ("a1" + ("b1" if inner_taken else "b2")) if taken else "a2"
+        hx += "%02x" % (top % 256)
+        text = "\n".join((decls + body) if rng.random() < 0.5 else (body + decls)) + "\n"
+        ch.append((text, defs, hx, how, n))
+    cops = [fw.asm_op([("main.asm", t)], defs=defs_field(d)) for t, d, _, _, _ in ch]
+    cimpl = fw.run_oracle_resilient(cops, "c16c")
+    cmodel = fw.run_model(cops, "c16c", timeout=3000)
+    for (t, d, hx, how, nn), a, m in zip(ch, cimpl, cmodel):
+        chk.evaluations += 1
+        il = fw.asm_line(a)
+        if il != m:
+            chk.disagree("defines=%s\n%s" % (d, t[-500:]), m[:250], il[:250])
+        r = parse(il)
+        chk.nontriv(t)
+        chk.count("chain_%s_%s" % (how, r[0]))
+        want = "".join(format(int(c, 16), "04b") for c in hx)
+        if r[0] != "ok" or r[1] != want:
+            chk.violate("a condition behind a chain of constants is not decided as the constants' values say", {"program": t, "defines": d, "order": how, "length": nn},
+                        "ok " + want, il[:300])
+    chk.traces += len(cops)
     # ---- -d spellings through the driver
     spell = [(["-dX=0x10"], 16), (["-d", "X=0x10"], 16), (["-dX=-3"], 253), (["-dX=7"], 7), (["--define", "X=0b101"], 5), (["--define=X=9"], 9)]
     dops = []
